@@ -196,7 +196,10 @@ OpH == [ Base EXCEPT !.sel = <<"n","h">>, !.pos = <<"x","y">>, !.npd = 1, !.dflt
 \* a method of the class n.g: called on an instance that the class's configurable builds
 OpM == [ Base EXCEPT !.sel = <<"n","g","s">>, !.kind = "meth", !.pos = <<"p","q">>, !.npd = 2,
                       !.dflt = {<<"p", D("p")>>, <<"q", N1>>}, !.api = "register", !.deny = {"q"} ]
-OpConfs == {OpF, OpG, OpH, GinMacro, OpM, GinSingleton}
+\* a second class of the same name in another module, with a method of the same name: their sections need their modules
+OpG2 == [ Base EXCEPT !.sel = <<"m","g">>, !.kind = "cls", !.pos = <<"x">>, !.npd = 1, !.dflt = {<<"x", D("x")>>}, !.api = "register" ]
+OpM2 == [ Base EXCEPT !.sel = <<"m","g","s">>, !.kind = "meth", !.pos = <<"p">>, !.npd = 1, !.dflt = {<<"p", D("p")>>}, !.api = "register" ]
+OpConfs == {OpF, OpG, OpH, GinMacro, OpM, GinSingleton, OpG2, OpM2}
 OpRegs == {OpConfs}
 OpValsF == { L1, L2, N1, R(<<"n","g">>, <<>>, "call"), R(<<"n","g">>, <<"a">>, "call"), Pct(<<"W">>),
              R(<<"gin","singleton">>, <<"s1">>, "call"),        \* a singleton: its section (and its constructor) belong to the record
@@ -205,7 +208,7 @@ OpValsG == { L1, L2 }
 OpValsM == { L1, L2 }
 OpFilter(sc, c, v) ==
   \/ c.sel = <<"m","f">> /\ v \in OpValsF
-  \/ c.sel \in {<<"n","g">>, <<"n","h">>, <<"n","g","s">>} /\ v \in OpValsG
+  \/ c.sel \in {<<"n","g">>, <<"n","h">>, <<"n","g","s">>, <<"m","g">>, <<"m","g","s">>} /\ v \in OpValsG
   \/ c.sel = <<"gin","macro">> /\ v \in OpValsM /\ sc = <<"W">>
   \/ c.sel = <<"gin","singleton">> /\ v = R(<<"n","g">>, <<>>, "bare") /\ sc = <<"s1">>
 OpBindVals == OpValsF \cup OpValsG \cup OpValsM \cup { R(<<"n","g">>, <<>>, "bare") }
